@@ -220,7 +220,8 @@ deriving DecidableEq, Repr
 structure FrameSrc where
   name : String
   over : Option String       -- `frame name in over`
-  guards : List Guard        -- beacts, in order
+  guards : List Guard        -- beacts (`let me if [not] field in share`), in order
+  gneeds : List NeedSrc      -- beacts that are marker needs (`let me if share is updated|changed …`)
   enter : List Write
   recur : List Write
   exit : List Write
@@ -249,6 +250,7 @@ structure Frame where
   name : String
   over : Option Nat
   guards : List Guard
+  gneeds : List Need
   enter : List Write
   recur : List Write
   exit : List Write
@@ -335,10 +337,14 @@ def resolveFrames (names : List String) :
     Nat → Placement → List FrameSrc → Except ResolveErr (List Frame × Placement)
   | _, pl, [] => .ok ([], pl)
   | i, pl, f :: fs => do
+    -- `Frame.resolve`: the beacts first.  A marker need that is an entry need resolves like any other
+    -- (`NeedMarker._resolve`: Mark created, enact marker inserted in the named frame when it has an
+    -- `in frame` clause) but its tract marker stays on the need: no Transiter collects it, it never runs
+    let (gn, pl) ← resolveNeeds names i pl f.gneeds
     let (ts, pl) ← resolveTranss names i pl f.trans
     let ov ← resolveOver names f.over
     let (fs', pl) ← resolveFrames names (i + 1) pl fs
-    return (⟨f.name, ov, f.guards, f.enter, f.recur, f.exit, ts⟩ :: fs', pl)
+    return (⟨f.name, ov, f.guards, gn, f.enter, f.recur, f.exit, ts⟩ :: fs', pl)
 
 structure Resolved where
   frames : List Frame
@@ -451,7 +457,9 @@ def exen : List Nat → List Nat → Nat → List Nat × List Nat
 
 /-- `Framer.checkEnter(enters)`: not empty, and every entry need of every frame to enter holds -/
 def enterOk (w : World) (frames : List Frame) (enters : List Nat) : Bool :=
-  !enters.isEmpty && enters.all (fun j => ((frames[j]?.map (·.guards)).getD []).all (evalGuard w))
+  !enters.isEmpty && enters.all (fun j =>
+    ((frames[j]?.map (·.guards)).getD []).all (evalGuard w) &&
+    ((frames[j]?.map (·.gneeds)).getD []).all (evalNeed w))
 
 /-- `Transiter.action` up to `checkEnter`: the needs hold and the frames to enter admit entry.  A
 transition whose needs hold but which is refused returns `None` before its tract acts run: nothing
